@@ -39,16 +39,27 @@ def run_workers(cases: List[Dict[str, Any]]):
         pickle.dump(cases, open(inp, "wb"))
         outs = {}
         procs = {}
+        # each backend validates the cases twice, in separate processes: in the given order and in reverse order
+        # (per-process caches keyed too coarsely make the outcome depend on which class was validated first)
+        rinp = os.path.join(tmp, "in_rev.pkl")
+        pickle.dump(list(reversed(cases)), open(rinp, "wb"))
         for b in ("pydantic", "fallback"):
-            env = child_env()
-            env.pop("MCP_FORCE_FALLBACK", None)
-            procs[b] = subprocess.Popen([PY, "-B", "-m", "vf.workers.model_worker", b, inp, os.path.join(tmp, b + ".pkl")],
-                                        env=env, cwd=ROOT, stdout=subprocess.PIPE, stderr=subprocess.PIPE)
-        for b, p in procs.items():
+            for order, path in (("fwd", inp), ("rev", rinp)):
+                env = child_env()
+                env.pop("MCP_FORCE_FALLBACK", None)
+                procs[(b, order)] = subprocess.Popen([PY, "-B", "-m", "vf.workers.model_worker", b, path,
+                                                      os.path.join(tmp, f"{b}_{order}.pkl")],
+                                                     env=env, cwd=ROOT, stdout=subprocess.PIPE, stderr=subprocess.PIPE)
+        for (b, order), p in procs.items():
             _, err = p.communicate(timeout=1500)
             if p.returncode != 0:
-                raise RuntimeError(f"{b} worker failed: {err.decode(errors='replace')[-800:]}")
-            outs[b] = pickle.load(open(os.path.join(tmp, b + ".pkl"), "rb"))
+                raise RuntimeError(f"{b}/{order} worker failed: {err.decode(errors='replace')[-800:]}")
+            o = pickle.load(open(os.path.join(tmp, f"{b}_{order}.pkl"), "rb"))
+            if order == "rev":
+                o["reports"] = list(reversed(o["reports"]))
+                outs[b + "_rev"] = o
+            else:
+                outs[b] = o
         return outs
     finally:
         shutil.rmtree(tmp, ignore_errors=True)
@@ -121,9 +132,14 @@ def run(ctx):
     if outs["pydantic"]["pydantic_available"] is not True or outs["fallback"]["pydantic_available"] is not False:
         ctx.inconclusive_because("backend selection not effective (PYDANTIC_AVAILABLE identical in both workers)")
         return
-    for c, rp, rf in zip(mine, outs["pydantic"]["reports"], outs["fallback"]["reports"]):
+    pairs = list(zip(mine, outs["pydantic"]["reports"], outs["fallback"]["reports"], ["fwd"] * len(mine))) + \
+        list(zip(mine, outs["pydantic_rev"]["reports"], outs["fallback_rev"]["reports"], ["rev"] * len(mine)))
+    for c, rp, rf, order in pairs:
         ctx.count("cases_compared")
+        ctx.count("order:" + order)
         case = {k: v for k, v in c.items()}
+        if order == "rev":
+            case["validation_order"] = "reverse"
         cls = c.get("cls", "envelope").split(":")[-1]
         if c["kind"] == "invariant":
             okp, okf = rp.get("ok"), rf.get("ok")
